@@ -83,6 +83,7 @@ def main():
     ap.add_argument('--ids')
     ap.add_argument('--revert-fixes', action='store_true')
     ap.add_argument('--seeded', action='store_true')
+    ap.add_argument('--benign', action='store_true', help='apply each selftest/benign/*.diff (property-preserving refactors) and expect EVERY check to stay quiet')
     ap.add_argument('--suite', action='store_true', help='also run the repository suite on each mutant')
     ap.add_argument('--jobs', type=int, default=4)
     ap.add_argument('--no-regress', action='store_true', help='skip the saved regression cases: measure the generators alone')
@@ -94,7 +95,7 @@ def main():
         os.environ['VERIF_SKIP_REGRESS'] = '1'
     jobs = []
     with cf.ThreadPoolExecutor(a.jobs) as ex:
-        if not a.revert_fixes and not a.seeded or ids:
+        if (not a.revert_fixes and not a.seeded and not a.benign) or ids:
             for m in M:
                 if props and m[1] not in props:
                     continue
@@ -110,6 +111,13 @@ def main():
                 pf = pathlib.Path(tempfile.mkstemp(prefix='cardutil-verif-fix-', suffix='.diff')[1])
                 pf.write_text(subprocess.run(['git', '-C', '/repo', 'show', '--format=', item['commit']], capture_output=True, text=True, check=True).stdout)
                 jobs.append(ex.submit(do_patch, tag + ':' + item['property'], item['property'], pf, a.tier, nproc, True, a.suite))
+        if a.benign:
+            allprops = ['C%02d' % i for i in range(1, 21)]
+            for pf in sorted((HERE / 'benign').glob('*.diff')):
+                for prop in allprops:
+                    if props and prop not in props:
+                        continue
+                    jobs.append(ex.submit(do_patch, f'benign-{pf.stem}:{prop}', prop, pf, a.tier, nproc, False, False))
         if a.seeded:
             for sd in sorted((VERIF / 'seeded').iterdir()):
                 meta = sd / 'meta.json'
@@ -133,6 +141,13 @@ def main():
         v.pop('harness', None)
         cur[k] = v
     json.dump(cur, open(path, 'w'), indent=1, sort_keys=True)
+    if a.benign:
+        for v in results.values():
+            v['status'] = {'SURVIVED': 'QUIET (expected)', 'KILLED': 'FALSE ALARM'}.get(v['status'], v['status'])
+        bad = [k for k, v in results.items() if v['status'] != 'QUIET (expected)']
+        json.dump(cur, open(path, 'w'), indent=1, sort_keys=True)
+        print(f'{len(results) - len(bad)}/{len(results)} quiet on property-preserving refactors; alarms: {bad}')
+        return
     surv = [k for k, v in results.items() if v['status'] != 'KILLED']
     print(f'{len(results) - len(surv)}/{len(results)} killed; not killed: {surv}')
 
